@@ -28,9 +28,9 @@ CHECKS = {
    design="4.3"),
  "C18": dict(
    category="exploration",
-   technique="deterministic simulation of 2..16 caller threads under a seeded baton scheduler (real threads, one runs at a time, every hand-off drawn from the seed and recorded), self-reference oracle; Miri many-seeds slice in the thorough tier",
-   text="Caller threads run seeded programs over the whole search API on one shared Regex and on clones; they can lose the CPU at every VM instruction, backtrack, delegate call and API/iterator seam, and the seeded scheduler decides every hand-off (uniform, PCT-like and operation-boundary policies, swarm-varied). Every call must return exactly what the same call returns alone on a fresh Regex; no panic difference, no deadlock. The schedule is the replay file. Send/Sync/Clone are asserted at compile time.",
-   note="Interleavings are explored at yield-point granularity; data races below that granularity exist only for unsafe code and are left to the Miri slice (thorough tier). regex-automata runs real code.",
+   technique="deterministic simulation of 2..16 caller threads under a seeded baton scheduler (real threads, one runs at a time, every hand-off drawn from the seed and recorded), self-reference oracle; plus a Miri many-seeds slice (second seeded scheduler, basic-block preemption, data-race detector) in both tiers",
+   text="Caller threads run seeded programs over the whole search API on one shared Regex and on clones; they can lose the CPU at every VM instruction, backtrack, delegate call and API/iterator seam, and the seeded scheduler decides every hand-off (uniform, PCT-like and operation-boundary policies, swarm-varied). Every call must return exactly what the same call returns alone on a fresh Regex; no panic difference, no deadlock. The schedule is the replay file. Send/Sync/Clone are asserted at compile time. A small 3-thread program over the shipped (hook-free) library is additionally interpreted by Miri over a window of scheduler seeds (16 quick / 3x96 thorough); a failing Miri seed is the replay.",
+   note="Interleavings are explored at yield-point granularity; data races below that granularity exist only for unsafe code and are left to the Miri slice, which is small because Miri is slow (about 4 s per execution). regex-automata runs real code in both.",
    design="4.4"),
  "C20": dict(
    category="exploration",
@@ -91,6 +91,11 @@ m = {
    "path": "/verif/sim",
    "serves_properties": claimed,
    "kind_free_text": "deterministic simulator: seeded baton scheduler over real threads, limit-abort fault injector, whole-copy reference models, replay files",
+ }, {
+   "name": "frmiri",
+   "path": "/verif/miri",
+   "serves_properties": ["C18"],
+   "kind_free_text": "3-thread scenario over the shipped library interpreted by Miri (cargo +nightly miri) with -Zmiri-many-seeds: seeded scheduler at basic-block granularity, data-race / aliasing detector; replay = Miri seed",
  }],
  "checks": checks,
  "not_applicable": sorted(na, key=lambda x: x["property_id"]),
